@@ -618,6 +618,7 @@ class Path:
         self.mem = st.mem
         self.writes = st.writes
         self.reads = st.reads
+        self.memo = st.memo
 
     def names(self):
         return [e.name for e in self.events]
